@@ -651,7 +651,8 @@ def gen_C09(rng, count, tier):
         elif k == 10: payload = u + b":" + p + b":" + p
         elif k == 11: payload = u + b":" + p + b"\xff"
         tok = base64.b64encode(payload)
-        scheme = pick(rng, [b"Basic", b"Basic", b"Basic", b"basic", b"BASIC", b"bAsIc", b"Bearer", b"Basi", b"Basicx", b""])
+        scheme = pick(rng, [b"Basic", b"Basic", b"Basic", b"basic", b"BASIC", b"bAsIc", b"Bearer", b"Basi", b"Basicx", b"",
+                            b"Basic\x00", b"Basic\x00Bearer", b"basic\x00x", b"\x00Basic", b"Basic\x01"])
         sep = pick(rng, [b" ", b" ", b" ", b" ", b"  ", b"\t", b""])
         m = rng.randrange(12)
         if m == 0: tok = tok.rstrip(b"=")
@@ -709,6 +710,17 @@ def gen_C14(rng, count, tier):
                     toks = ["src:" + hx(src), "block:%d" % block] + (["range:%d:%d" % r] if r else []) + ["start"] + ["turn"] * at + ["stop"] + ["turn"] * 3
                     n += 1
                     yield ("copier", " ".join(toks))
+    # a destination with a backlog (bytesToWrite() > 0) that announces progress with bytesWritten(), once or several
+    # times between two turns: the copier's protocol does not depend on it
+    for ln, block in ((3, 1), (5, 1), (6, 2), (9, 3), (4, 1)):
+        src = bytes(range(65, 65 + ln))
+        for pattern in (["turn", "dack:1", "dack:1"], ["turn", "dack:1"], ["turn", "turn", "dack:1", "dack:1", "dack:5"], ["dack:2", "turn"]):
+            toks = ["src:" + hx(src), "block:%d" % block, "dbuf", "start"]
+            for _ in range(ln // block + 4):
+                toks += pattern
+            toks += ["turn"] * 3
+            n += 1
+            yield ("copier", " ".join(toks))
     while n < count:
         n += 1
         ln = pick(rng, [0, 1, 2, 3, 9, 17, 40]) if rng.random() < 0.95 else 200000
@@ -785,7 +797,12 @@ def gen_C07(rng, count, tier):
         t = pick(rng, ["/", "/", "/", "//", "/" + FSBASE + "/parent/", "//" + FSBASE.lstrip("/") + "/parent/"]) + "/".join(segs)
         if rng.random() < 0.1:
             t += "/"
-        yield ("fs", "root:%s %s" % (hx(root_spelling(rng).encode()), fs_events(("GET %s HTTP/1.1\r\n\r\n" % t).encode())))
+        warm = ""
+        if rng.random() < 0.3:
+            # the same handler object has answered other requests before (inside the root, mostly)
+            warm = " ".join("warm:" + hx(pick(rng, [b"/", b"/in.txt", b"/sub/deep.txt", b"/sub", b"/sub/", b"/nonexistent", b"/../rootx/s.txt", b"/big.bin"]))
+                            for _ in range(rng.choice([1, 1, 2]))) + " "
+        yield ("fs", "root:%s %s%s" % (hx(root_spelling(rng).encode()), warm, fs_events(("GET %s HTTP/1.1\r\n\r\n" % t).encode())))
 
 
 def gen_C08(rng, count, tier):
@@ -818,7 +835,16 @@ def gen_C08(rng, count, tier):
         if hdr is not None:
             lines = "\r\n%s: %s" % (pick(rng, ["Range", "range", "RANGE"]), hdr)
         req = ("GET /%s HTTP/1.1%s\r\n\r\n" % (name, lines)).encode()
-        yield ("fs", "root:%s %s" % (hx(FSROOT.encode()), fs_events(req)))
+        evs = fs_events(req)
+        if rng.random() < 0.12:
+            # the handler object is destroyed while the response is under way (after the request was routed)
+            toks = evs.split()
+            pos = rng.randrange(2, len(toks) + 1)
+            toks.insert(pos, "killhandler")
+            evs = " ".join(toks)
+        if rng.random() < 0.1:
+            evs = "warm:" + hx(pick(rng, [b"/in.txt", b"/big.bin", b"/"])) + " " + evs
+        yield ("fs", "root:%s %s" % (hx(FSROOT.encode()), evs))
 
 
 # ------------------------------------------------------------------------------------ C15
@@ -837,6 +863,12 @@ def gen_C15(rng, count, tier):
         body = bytes((j * 3 + i) % 251 for j in range(n or 0))
         head = ("POST %s HTTP/1.1" % target).encode() + (b"\r\nContent-Length: %d" % n if n is not None else b"")
         sent = body if rng.random() < 0.85 else body[:rng.randrange(0, len(body) + 1)]
+        if rng.random() < 0.06:
+            # a declared length around the 32-bit boundaries, of which only a few bytes ever arrive
+            big = pick(rng, [2**31 - 1, 2**31, 2**31 + 5, 2**32 - 1, 2**32, 2**32 + 3, 2**32 + 12, 2**63 - 1])
+            head = ("POST %s HTTP/1.1" % target).encode() + b"\r\nContent-Length: %d" % big
+            sent = bytes((j * 5 + i) % 251 for j in range(pick(rng, [0, 3, 12, 40])))
+            n = len(sent)
         stream = head + b"\r\n\r\n" + sent + pick(rng, [b"", b"", b"extra"])
         h = len(head)
         segs = cuts(rng, stream, marks=(h + 4, h + 4 + (n or 0), h + 2))
